@@ -338,17 +338,17 @@ Definition visible (sv : saver) : bool :=
 (* one message: the chunk for topic provides[i] goes to the savers of that topic.  The topic is
    the position in `provides`, not the chunk's own label (PostOffice._fetch_new keys by the dict
    key / the registered topic). *)
+Fixpoint sv_deliver_topic (d : Z) (c : xchunk) (l : list saver) : res (list saver) :=
+  match l with
+  | [] => Ok []
+  | sv :: r => if sv_type sv =? d
+               then do sv' <- sv_receive sv c; do r' <- sv_deliver_topic d c r; Ok (sv' :: r')
+               else do r' <- sv_deliver_topic d c r; Ok (sv :: r')
+  end.
+
 Fixpoint sv_deliver_msg (svs : list saver) (topics : list Z) (cs : list xchunk) : res (list saver) :=
   match topics, cs with
-  | d :: ts, c :: rest =>
-      do svs' <- (fix go (l : list saver) : res (list saver) :=
-                    match l with
-                    | [] => Ok []
-                    | sv :: r => if sv_type sv =? d
-                                 then do sv' <- sv_receive sv c; do r' <- go r; Ok (sv' :: r')
-                                 else do r' <- go r; Ok (sv :: r')
-                    end) svs;
-      sv_deliver_msg svs' ts rest
+  | d :: ts, c :: rest => do svs' <- sv_deliver_topic d c svs; sv_deliver_msg svs' ts rest
   | _, _ => Ok svs
   end.
 
